@@ -49,6 +49,10 @@ def feat(rng, p, ident=None):
     s, e = G.rand_span(rng, p)
     if rng.random() < 0.5:
         e = min(e, s + rng.choice([0, 1, 5, 1 << 17]))  # many short features near one edge
+    if s > 1 and rng.random() < 0.08:
+        e = s - 1  # a zero-length feature (insertion site between two bases), written start = end + 1
+    elif e > s and rng.random() < 0.04:
+        s, e = e, s  # reversed coordinates: not legal GFF, but stored and queried by the same two comparisons
     attrs = [["ID", [ident]]] if ident else [["note", ["k"]]]
     if rng.random() < 0.4:
         attrs.append(["Parent", [rng.choice(["a", "b"])]])
